@@ -14,9 +14,9 @@ def run(ctx):
     # MERGE (ON CREATE / ON MATCH, unlabelled, per UNWIND / MATCH row), SET (property, from another property, swap, += map,
     # label, null, failing expression), REMOVE (property, label), DELETE / DETACH DELETE (nodes, relationships), with RETURN
     scripts = ctx.tlc_gen("MC_CypherWrite", gen("C04", 6, 4, 3, inv=INV, props=PROPS, rich=not q), "cover", timeout=6000, workers=1)
-    scripts = cap(ctx, scripts, 5000 if q else 80000, "cover")
+    scripts = cap(ctx, scripts, 4000 if q else 80000, "cover")
     walks = ctx.tlc_gen("MC_CypherWrite", gen("C04", 8, 6, 6, view=False, emit="", inv=INV + " SimEmit", rich=True),
-                        "walks", simulate=(500 if q else 20000, 7), workers=4)
+                        "walks", simulate=(200 if q else 1500, 7), workers=4, timeout=3000)
     ctx.assume("graphs of <= 6 nodes / 4 relationships grown from the empty graph by the statements themselves; labels {A,B}, keys {k,p}, "
                "integer values; no constraints or indexes (C05 / C11 cover those)",
                "returned rows are compared as bags; the order in which MATCH feeds rows to the write clause is left open",
